@@ -142,7 +142,35 @@ def _c14(prop, rec):
     return r(prop, rec)
 
 
+def _pair_differ(prop, rec):
+    a = _tucan_of_molfile(rec["molfile_a"])[1]
+    b = _tucan_of_molfile(rec["molfile_b"])[1]
+    return a == b, f"non-isomorphic molecules: tucan(A)={a!r} tucan(B)={b!r}"
+
+
+def _zoo(prop, rec):
+    try:
+        gc, s = _tucan_of_molfile(rec["molfile"])
+    except Exception as ex:
+        return True, f"pipeline raised {type(ex).__name__}: {ex}"
+    if prop == "C13":
+        from .e1 import refine_once
+        from .props_strings import encode_graph
+
+        n, cols, bonds = encode_graph(gc)
+        adj = [[] for _ in range(n)]
+        for a, b in bonds:
+            adj[a].append(b)
+            adj[b].append(a)
+        cls = [gc.nodes[i]["partition"] for i in range(n)]
+        ok = refine_once(n, cols, cls, adj)
+        return not ok, f"classes {cls} equitable/monochromatic: {ok}"
+    return False, f"tucan = {s!r}"
+
+
 REPLAYERS = {
+    "e1-pair-differ": _pair_differ,
+    "zoo": _zoo,
     "c14-hashseed": _c14,
     "c14-history": _c14,
     "c14-schedule": _c14,
